@@ -203,7 +203,7 @@ class CharRexValidator(CharValidator):
         class_regex = self._rex_dict["class_words"].get(class_name, [])
         if not class_regex:
             return True
-        match = re.match(class_regex, input_string, re.ASCII)
+        match = re.fullmatch(class_regex, input_string, re.ASCII)
         match = match if match else False
         return match
 
